@@ -228,17 +228,20 @@ def family_worker(job):
 def run_families(prop, ck, fams, tier, seed, extra=None, shards_per_family=None):
     from . import families
     jobs = []
-    for fam in fams:
+    for spec in fams:
+        # "N@quick": this family at the quick bound whatever the tier of the run (its deep bound belongs to another property)
+        fam, _, pinned = spec.partition("@")
+        ftier = pinned or tier
         # jobs are hermetic (one fresh interpreter each), so do not cut small families into many pieces
-        nseeds = sum(1 for _ in families.REGISTRY[fam](tier))
+        nseeds = sum(1 for _ in families.REGISTRY[fam](ftier))
         ns = shards_per_family or max(1, min(pool.NPROC * 2, nseeds // 40))
         for s in range(ns):
-            jobs.append((prop, ck, fam, tier, s, ns, extra))
+            jobs.append((prop, ck, fam, ftier, s, ns, extra))
     rot = seed % len(jobs) if seed else 0
     jobs = jobs[rot:] + jobs[:rot]
     results = pool.pmap(family_worker, jobs)
     per_family = collections.Counter()
     for j, r in zip(jobs, results):
-        per_family[j[2]] += r["evals"]
+        per_family[j[2] + ("@" + j[3] if j[3] != tier else "")] += r["evals"]
     tot = merge(results)
     return tot, dict(per_family)
